@@ -83,11 +83,16 @@ def run_shard(shard, out_base):
                     accepted.append(dd)
                 elif not judge.is_lib_exc(o.exc):
                     mon.viol(f"escape:{o.exc_name}", {**w, "digits": dd}, "library error", o.brief())
+            for dd in {"00", "01", "99", f"{(int(want) + 1) % 100:02d}", f"{rng.randrange(100):02d}"} - {want}:
+                ow = observe(lambda dd=dd: S.IBAN(S.IBAN(cc + dd + b, allow_invalid=True)))
+                if ow.ok:
+                    mon.viol("wrong_digits_accepted_when_passed_as_unvalidated_object", {**w, "digits": dd}, "rejected", ow.brief())
             mon.distinct((cc, b))
             if accepted != [want]:
                 extra = [d for d in accepted if d != want]
                 kind = "alias_accepted" if extra and all((int(d) - int(want)) % 97 == 0 for d in extra) else "wrong_accept_set"
                 mon.viol(kind, w, [want], accepted)
+        judge.from_bban_sloppy_arguments(mon, cc, bbans[0], table)
         mon.tally("countries")
         mon.sample({"country": cc, "bban": bbans[0], "computed": R.check_digits(cc, bbans[0])})
     return mon.result(out_base)
